@@ -1,1 +1,480 @@
 //! Schedule controllers for the Pipe / Buffered hooks (C05, C08, C09).
+//!
+//! `Serial`: every hooked thread parks at every schedule point and runs only when granted, so
+//! exactly one actor (a worker or the consumer = the harness thread) runs at any time and an
+//! execution is a function of the sequence of scheduling choices.
+//! `Chaos`: no parking, pseudo-random yields/sleeps at the schedule points (real threads).
+#![allow(dead_code)]
+use std::collections::hash_map::DefaultHasher;
+use std::hash::{Hash, Hasher};
+use std::sync::atomic::{AtomicU64, AtomicUsize, Ordering};
+use std::sync::{Arc, Condvar, Mutex};
+use std::time::{Duration, Instant};
+use text_utils::data::loading::{Pipe, PipelineIterator};
+use text_utils::verif::{Controller, Point};
+
+#[derive(Debug, Clone, Copy, PartialEq)]
+pub enum WState {
+    NotStarted,
+    Parked(Point, Option<usize>, Option<bool>),
+    Running,
+    Exited,
+}
+
+#[derive(Debug, Clone, Copy, PartialEq)]
+pub struct Event {
+    pub worker: usize,
+    pub point: Point,
+    pub idx: Option<usize>,
+    pub ok: Option<bool>,
+}
+
+struct SerialState {
+    workers: Vec<WState>,
+    granted: Option<usize>,
+    free_run: bool,
+    trace: Vec<Event>,
+}
+
+pub struct Serial {
+    st: Mutex<SerialState>,
+    cv: Condvar,
+}
+
+impl Serial {
+    pub fn new(workers: usize) -> Arc<Self> {
+        Arc::new(Serial {
+            st: Mutex::new(SerialState {
+                workers: vec![WState::NotStarted; workers],
+                granted: None,
+                free_run: false,
+                trace: vec![],
+            }),
+            cv: Condvar::new(),
+        })
+    }
+
+    /// wait until no worker is running or not yet started; false on timeout
+    pub fn wait_quiescent(&self, timeout: Duration) -> bool {
+        let deadline = Instant::now() + timeout;
+        let mut st = self.st.lock().unwrap();
+        loop {
+            let busy = st.granted.is_some()
+                || st
+                    .workers
+                    .iter()
+                    .any(|w| matches!(w, WState::Running | WState::NotStarted));
+            if !busy {
+                return true;
+            }
+            let now = Instant::now();
+            if now >= deadline {
+                return false;
+            }
+            let (g, _) = self.cv.wait_timeout(st, deadline - now).unwrap();
+            st = g;
+        }
+    }
+
+    pub fn snapshot(&self) -> Vec<WState> {
+        self.st.lock().unwrap().workers.clone()
+    }
+
+    pub fn trace_len(&self) -> usize {
+        self.st.lock().unwrap().trace.len()
+    }
+
+    pub fn trace(&self) -> Vec<Event> {
+        self.st.lock().unwrap().trace.clone()
+    }
+
+    /// let worker `w` run until it parks again or exits; false if it did neither within `timeout`
+    /// (it is blocked inside a primitive)
+    pub fn grant(&self, w: usize, timeout: Duration) -> bool {
+        {
+            let mut st = self.st.lock().unwrap();
+            st.granted = Some(w);
+            st.workers[w] = WState::Running;
+            self.cv.notify_all();
+        }
+        let deadline = Instant::now() + timeout;
+        let mut st = self.st.lock().unwrap();
+        loop {
+            if st.granted != Some(w) {
+                return true;
+            }
+            let now = Instant::now();
+            if now >= deadline {
+                return false;
+            }
+            let (g, _) = self.cv.wait_timeout(st, deadline - now).unwrap();
+            st = g;
+        }
+    }
+
+    /// stop controlling: every parked worker continues on its own
+    pub fn release_all(&self) {
+        let mut st = self.st.lock().unwrap();
+        st.free_run = true;
+        self.cv.notify_all();
+    }
+}
+
+impl Controller for Serial {
+    fn at(&self, worker: usize, point: Point, idx: Option<usize>, ok: Option<bool>) {
+        // only pipe workers are serialised; buffer-thread points pass through
+        if matches!(
+            point,
+            Point::BufBeforePull | Point::BufBeforeSend | Point::BufAfterSend | Point::BufExit
+        ) {
+            return;
+        }
+        let mut st = self.st.lock().unwrap();
+        if worker >= st.workers.len() {
+            return;
+        }
+        st.trace.push(Event { worker, point, idx, ok });
+        if point == Point::Exit {
+            st.workers[worker] = WState::Exited;
+            if st.granted == Some(worker) {
+                st.granted = None;
+            }
+            self.cv.notify_all();
+            return;
+        }
+        st.workers[worker] = WState::Parked(point, idx, ok);
+        if st.granted == Some(worker) {
+            st.granted = None;
+        }
+        self.cv.notify_all();
+        while st.granted != Some(worker) && !st.free_run {
+            st = self.cv.wait(st).unwrap();
+        }
+        st.workers[worker] = WState::Running;
+    }
+}
+
+// ---------------------------------------------------------------------------------------
+
+pub struct Chaos {
+    seed: u64,
+    counter: AtomicU64,
+}
+
+impl Chaos {
+    pub fn new(seed: u64) -> Arc<Self> {
+        Arc::new(Chaos {
+            seed,
+            counter: AtomicU64::new(0),
+        })
+    }
+}
+
+impl Controller for Chaos {
+    fn at(&self, worker: usize, point: Point, _idx: Option<usize>, _ok: Option<bool>) {
+        let k = self.counter.fetch_add(1, Ordering::Relaxed);
+        let mut h = DefaultHasher::new();
+        (self.seed, worker, point as u8 as u64, k).hash(&mut h);
+        let r = h.finish() % 100;
+        if r < 30 {
+            std::thread::yield_now();
+        } else if r < 36 {
+            std::thread::sleep(Duration::from_micros(20 + (h.finish() >> 8) % 200));
+        }
+    }
+}
+
+// ---------------------------------------------------------------------------------------
+// one controlled run of a Pipe
+
+#[derive(Debug, Clone, Copy, PartialEq, Eq, Hash)]
+pub enum Actor {
+    Consumer,
+    Worker(usize),
+}
+
+pub type Item = (usize, u64);
+
+pub fn f_of(x: usize) -> u64 {
+    (x as u64).wrapping_mul(0x9E37_79B9).wrapping_add(3)
+}
+
+pub struct PipeRun {
+    pub ctrl: Arc<Serial>,
+    pub t: usize,
+    pub n: usize,
+    pub cap: usize,
+    pipe: Option<Pipe<Item>>,
+    pub received: Vec<Item>,
+    pub calls: Arc<Vec<AtomicUsize>>,
+    pub pulled: Arc<AtomicUsize>,
+    pub recvs: usize,
+    pub ended: bool,
+    pub dropped: bool,
+    epoch: u64,
+    spin_epoch: Vec<u64>,
+    pub blocked: Vec<bool>,
+    pub last: Option<Actor>,
+    pub steps: usize,
+    pub preemptions: usize,
+    pub classes: Vec<&'static str>,
+    /// upstream iterator was dropped (all workers released it)
+    pub upstream_dropped: Arc<AtomicUsize>,
+    forced_send: bool,
+}
+
+struct Upstream {
+    next: usize,
+    n: usize,
+    pulled: Arc<AtomicUsize>,
+    dropped: Arc<AtomicUsize>,
+}
+
+impl Iterator for Upstream {
+    type Item = usize;
+    fn next(&mut self) -> Option<usize> {
+        if self.next < self.n {
+            self.pulled.fetch_add(1, Ordering::SeqCst);
+            self.next += 1;
+            Some(self.next - 1)
+        } else {
+            None
+        }
+    }
+}
+
+impl Drop for Upstream {
+    fn drop(&mut self) {
+        self.dropped.fetch_add(1, Ordering::SeqCst);
+    }
+}
+
+const GRANT_TIMEOUT: Duration = Duration::from_secs(2);
+const SHORT_TIMEOUT: Duration = Duration::from_millis(15);
+/// channel capacity learned in this process: the occupancy at which a granted send blocked
+static LEARNED_CAP: AtomicUsize = AtomicUsize::new(usize::MAX);
+
+impl PipeRun {
+    pub fn new(t: usize, n: usize) -> Result<Self, String> {
+        let ctrl = Serial::new(t);
+        let calls: Arc<Vec<AtomicUsize>> = Arc::new((0..n.min(4096)).map(|_| AtomicUsize::new(0)).collect());
+        let pulled = Arc::new(AtomicUsize::new(0));
+        let upstream_dropped = Arc::new(AtomicUsize::new(0));
+        let up = Upstream {
+            next: 0,
+            n,
+            pulled: pulled.clone(),
+            dropped: upstream_dropped.clone(),
+        };
+        let calls2 = calls.clone();
+        let pipeline: text_utils::data::Pipeline<usize, Item> = Arc::new(move |x: usize| {
+            if let Some(c) = calls2.get(x) {
+                c.fetch_add(1, Ordering::SeqCst);
+            }
+            (x, f_of(x))
+        });
+        text_utils::verif::install(Some(ctrl.clone() as Arc<dyn Controller>));
+        let pipe = up.pipe(pipeline, t as u8);
+        text_utils::verif::install(None);
+        crate::engine::install_panic_hook();
+        let run = PipeRun {
+            ctrl,
+            t,
+            n,
+            cap: t,
+            pipe: Some(pipe),
+            received: vec![],
+            calls,
+            pulled,
+            recvs: 0,
+            ended: false,
+            dropped: false,
+            epoch: 1,
+            spin_epoch: vec![0; t],
+            blocked: vec![false; t],
+            last: None,
+            steps: 0,
+            preemptions: 0,
+            classes: vec![],
+            upstream_dropped,
+            forced_send: false,
+        };
+        if t > 0 && !run.ctrl.wait_quiescent(Duration::from_secs(10)) {
+            return Err("workers did not reach their first schedule point within 10 s".into());
+        }
+        Ok(run)
+    }
+
+    fn class(&mut self, c: &'static str) {
+        if !self.classes.contains(&c) {
+            self.classes.push(c);
+        }
+    }
+
+    pub fn sends_ok(&self) -> usize {
+        self.ctrl
+            .trace()
+            .iter()
+            .filter(|e| e.point == Point::AfterSend && e.ok == Some(true))
+            .count()
+    }
+
+    pub fn occupancy(&self) -> isize {
+        self.sends_ok() as isize - self.recvs as isize
+    }
+
+    pub fn all_exited(&self) -> bool {
+        self.ctrl.snapshot().iter().all(|w| *w == WState::Exited)
+    }
+
+    pub fn enabled(&mut self) -> Vec<Actor> {
+        let mut v = vec![];
+        let snap = self.ctrl.snapshot();
+        let occ = self.occupancy();
+        let any_blocked = self.blocked.iter().any(|b| *b);
+        if !self.dropped && !self.ended && (occ > 0 || snap.iter().all(|w| *w == WState::Exited) || any_blocked) {
+            v.push(Actor::Consumer);
+        }
+        let mut full = false;
+        let mut at_send: Vec<usize> = vec![];
+        for (w, s) in snap.iter().enumerate() {
+            if self.blocked[w] {
+                continue;
+            }
+            match s {
+                WState::Parked(Point::TurnSpin, _, _) => {
+                    if self.spin_epoch[w] < self.epoch {
+                        v.push(Actor::Worker(w));
+                    }
+                }
+                WState::Parked(Point::BeforeSend, _, _) => {
+                    let cap = self.cap.min(LEARNED_CAP.load(Ordering::Relaxed));
+                    if self.dropped || occ < cap as isize {
+                        v.push(Actor::Worker(w));
+                    } else {
+                        full = true;
+                        at_send.push(w);
+                    }
+                }
+                WState::Parked(..) => v.push(Actor::Worker(w)),
+                _ => {}
+            }
+        }
+        if full {
+            self.class("channel_full");
+        }
+        if v.is_empty() && !at_send.is_empty() {
+            // the model says every sender would block and nobody else can move: the model may be
+            // wrong about the capacity (e.g. a rendezvous channel) - let one sender try
+            self.forced_send = true;
+            v.push(Actor::Worker(at_send[0]));
+        }
+        v
+    }
+
+    /// Execute one step of `a`. Err = an oracle-independent failure (hang-like).
+    pub fn step(&mut self, a: Actor, enabled: &[Actor]) -> Result<(), String> {
+        self.steps += 1;
+        if let Some(l) = self.last {
+            if l != a && enabled.contains(&l) {
+                self.preemptions += 1;
+                // preemption inside another worker's send window?
+                if let Actor::Worker(lw) = l {
+                    if let WState::Parked(p, _, _) = self.ctrl.snapshot()[lw] {
+                        if matches!(p, Point::BeforeSend | Point::AfterSend) {
+                            self.class("preempt_in_send_window");
+                        }
+                    }
+                }
+            }
+        }
+        self.last = Some(a);
+        match a {
+            Actor::Consumer => {
+                crate::engine::beat();
+                let item = self.pipe.as_mut().expect("pipe").next();
+                match item {
+                    Some(it) => {
+                        self.received.push(it);
+                        self.recvs += 1;
+                    }
+                    None => self.ended = true,
+                }
+                self.epoch += 1;
+                // a receive may unblock a worker that sits inside send()
+                for w in 0..self.t {
+                    if self.blocked[w] {
+                        self.blocked[w] = false;
+                        let _ = self.ctrl.wait_quiescent(Duration::from_millis(200));
+                    }
+                }
+            }
+            Actor::Worker(w) => {
+                let before = self.ctrl.snapshot()[w];
+                crate::engine::beat();
+                let at_send = matches!(before, WState::Parked(Point::BeforeSend, _, _));
+                let occ = self.occupancy().max(0) as usize;
+                let known = LEARNED_CAP.load(Ordering::Relaxed) != usize::MAX;
+                let timeout = if at_send && known && (self.forced_send || occ >= LEARNED_CAP.load(Ordering::Relaxed)) {
+                    SHORT_TIMEOUT
+                } else {
+                    GRANT_TIMEOUT
+                };
+                self.forced_send = false;
+                if !self.ctrl.grant(w, timeout) {
+                    self.blocked[w] = true;
+                    self.class("blocked_in_primitive");
+                    if at_send && !self.dropped {
+                        LEARNED_CAP.fetch_min(occ, Ordering::Relaxed);
+                    }
+                    return Ok(());
+                }
+                let after = self.ctrl.snapshot()[w];
+                let spun = matches!(before, WState::Parked(Point::TurnSpin, _, _))
+                    && matches!(after, WState::Parked(Point::TurnSpin, _, _));
+                if spun || (matches!(after, WState::Parked(Point::TurnSpin, _, _)) && !matches!(before, WState::Parked(Point::TurnSpin, _, _))) {
+                    // (re-)entered the spin: may be tried again only after someone else progressed
+                    self.spin_epoch[w] = self.epoch + if spun { 0 } else { 1 };
+                }
+                if !spun {
+                    self.epoch += 1;
+                }
+                // classes
+                if let WState::Parked(Point::AfterCompute, Some(i), _) = after {
+                    let snap = self.ctrl.snapshot();
+                    if snap.iter().enumerate().any(|(o, s)| o != w && matches!(s, WState::Parked(Point::AfterTicket, Some(j), _) if *j < i)) {
+                        self.class("out_of_order_compute");
+                    }
+                    if snap.iter().enumerate().any(|(o, s)| o != w && matches!(s, WState::Parked(Point::AfterCompute | Point::TurnSpin | Point::BeforeSend, _, _))) {
+                        self.class("two_workers_past_compute");
+                    }
+                }
+            }
+        }
+        Ok(())
+    }
+
+    pub fn drop_pipe(&mut self) {
+        self.pipe = None;
+        self.dropped = true;
+        self.epoch += 1;
+        for w in 0..self.t {
+            if self.blocked[w] {
+                self.blocked[w] = false;
+            }
+        }
+        let _ = self.ctrl.wait_quiescent(Duration::from_millis(500));
+    }
+
+    /// release everything (end of a case): workers run freely and exit
+    pub fn finish(&mut self) {
+        self.pipe = None;
+        self.ctrl.release_all();
+    }
+}
+
+impl Drop for PipeRun {
+    fn drop(&mut self) {
+        self.finish();
+    }
+}
